@@ -326,6 +326,8 @@ func init() {
 		Harnesses: []harnessSpec{
 			{Pkg: "wrapper", Func: "HarnessC20_args", Tiers: "qt", Samples: 16, Covers: []string{"wrap.passthrough", "wrap.replaced", "wrap.evalfails", "wrap.notfound"},
 				Bound: "1-3 (quick) / 0-4 (thorough) arguments, each a flag, --opt=value, word, existing non-bkl file, existing layer file, virtual name with another supported extension, supported extension without a layer, a layer whose evaluation fails, or EVERY alphanumeric name of <= 2 bytes (optionally + .toml) that names no layer; wrapped program found on PATH or not; observed at syscall.Exec"},
+			{Pkg: "bklb", Func: "HarnessC20_main", Tiers: "qt", Samples: 24, Covers: []string{"main.exec", "main.usage", "main.empty"},
+				Bound: "cmd/bklb main started under EVERY name <tool> or <tool>b with tool of 0-3 bytes over {a,b,k,-,_,.} in 4 directory spellings: exactly one trailing b is removed and that program is run with the wrapper's arguments (a passed-through pair, or a layer file that gets replaced); a name not ending in b runs nothing and exits non-zero"},
 		},
 		Assume: append([]string{
 			"os.Args, exec.LookPath, os.CreateTemp (fresh unique name), os.OpenFile/Write (virtual FS), syscall.Exec (observation point, ends the run), os.Exit are environment stubs; native replay runs the real wrapper in a child process with a recording stand-in on PATH",
